@@ -2,6 +2,7 @@ package c13
 
 import (
 	"encoding/json"
+	"strings"
 	"sync"
 
 	"github.com/saucelabs/forwarder/verifharness/core"
@@ -17,7 +18,14 @@ var outerKinds = []struct {
 	{"connect-ok", 7}, {"connect-viaok", 3}, {"connect-dialfail", 3}, {"connect-denied", 2}, {"connect-auth407", 2}, {"connect-reject", 5},
 	{"mitm", 8}, {"mitm-abort", 2}, {"upgrade", 5},
 	{"abort-upload", 4}, {"abort-download", 4}, {"write-error", 4}, {"connect-write-error", 3}, {"upgrade-write-error", 3}, {"eof", 3}, {"garbage", 2},
+	// a connection is dialled and the exchange then fails — and the control cases (dialfail.go)
+	{"tt-plain", 4}, {"tt-tls", 3}, {"tt-via", 2}, {"tt-refused", 1}, {"up-fault", 5}, {"up-ok", 2}, {"up-reject", 2}, {"up-badtls", 2},
+	{"sk-ok", 2}, {"sk-fault", 3}, {"sk-tt", 1}, {"cf", 3}, {"https-plain", 2}, {"https-badcert", 1}, {"mitm-plainorigin", 2}, {"mitm-badhello", 1},
 }
+
+// dialThenFail: the kinds in which the proxy holds a dialled connection when the exchange fails
+var dialThenFail = []string{"tt-plain", "tt-plain", "tt-tls", "tt-via", "up-fault", "up-fault", "up-reject", "up-badtls", "sk-fault", "sk-tt", "cf", "cf",
+	"https-plain", "https-badcert"}
 
 var innerKinds = []string{"ok", "ok", "ok", "status", "chunked", "reset-head", "reset-body", "abort-download", "write-error"}
 
@@ -52,6 +60,29 @@ func fill(r *core.Rand, x *xspec) {
 	case "connect-ok", "connect-viaok", "upgrade":
 		x.Size = core.Pick(r, []int{0, 10, 5000, 100000})
 		x.End = core.Pick(r, []string{"close", "fin", "rst"})
+	case "tt-tls", "sk-ok":
+		x.Size = core.Pick(r, []int{0, 10, 5000})
+		x.End = core.Pick(r, []string{"close", "fin", "rst"})
+	case "up-ok":
+		x.Via = core.Pick(r, []string{"hup", "tup", "tup"})
+		x.Size = core.Pick(r, []int{0, 10, 5000})
+		x.End = core.Pick(r, []string{"close", "fin", "rst"})
+	case "up-fault":
+		x.Via = core.Pick(r, []string{"hup", "tup"})
+		x.Fault = core.Pick(r, []string{"torn", "torn", "tornrst", "garble", "fin", "fin", "hdr", "mute"})
+	case "up-reject":
+		x.Via = core.Pick(r, []string{"hup", "tup"})
+		x.Status = core.Pick(r, []int{403, 407, 502, 503, 302})
+	case "up-badtls":
+		x.Via = core.Pick(r, []string{"ptup", "utup"})
+	case "sk-fault":
+		x.Fault = core.Pick(r, []string{"rej", "rej", "torn", "fin", "badgreet", "mute"})
+	case "cf":
+		x.Fault = core.Pick(r, []string{"both", "both", "nores", "ok", "err"})
+		if x.Fault == "ok" {
+			x.Size = core.Pick(r, []int{0, 10, 5000})
+			x.End = core.Pick(r, []string{"close", "fin", "rst"})
+		}
 	case "connect-reject":
 		x.Status = core.Pick(r, []int{403, 407, 502, 503, 302})
 	case "abort-upload":
@@ -78,19 +109,20 @@ func fill(r *core.Rand, x *xspec) {
 	}
 }
 
-// genRound draws 1-8 connections of 1-5 exchanges. target: "" | "f12" (a transport-level CONNECT
+// genRound draws 1-8 connections of 1-5 exchanges. target: "" | "dialfail" (an exchange in which the proxy holds a
+// dialled connection when it fails) | "f12" (a transport-level CONNECT
 // rejection, the path of the repaired F12: a regression target) | "f40" (a CONNECT answered 101, the
 // recorded class) | "f42" (an origin answering 101 without a protocol switch, the path of the repaired
 // F42: a regression target) puts one such exchange into the round.
 func genRound(r *core.Rand, defect string) *roundCase {
-	rc := &roundCase{Kind: "round", Handler: r.Chance(20)}
+	rc := &roundCase{Kind: "round", Handler: r.Chance(20), Insecure: r.Chance(35)}
 	nc := r.Range(1, 8)
 	for i := 0; i < nc; i++ {
 		var cs connSpec
 		n := r.Range(1, 5)
 		for j := 0; j < n; j++ {
 			x := xspec{Kind: pickKind(r)}
-			for rc.Handler && (x.Kind == "mitm" || x.Kind == "mitm-abort") {
+			for rc.Handler && strings.HasPrefix(x.Kind, "mitm") {
 				x.Kind = pickKind(r)
 			}
 			fill(r, &x)
@@ -128,6 +160,19 @@ func genRound(r *core.Rand, defect string) *roundCase {
 			pos = r.Intn(pos + 1)
 			c.Exchanges = append(c.Exchanges[:pos], append([]xspec{x}, c.Exchanges[pos:]...)...)
 		}
+	case "dialfail":
+		x := xspec{Kind: core.Pick(r, dialThenFail)}
+		fill(r, &x)
+		c := &rc.Conns[r.Intn(len(rc.Conns))]
+		pos := len(c.Exchanges)
+		for j, e := range c.Exchanges {
+			if terminal(e.Kind) {
+				pos = j
+				break
+			}
+		}
+		pos = r.Intn(pos + 1)
+		c.Exchanges = append(c.Exchanges[:pos], append([]xspec{x}, c.Exchanges[pos:]...)...)
 	case "f42":
 		c := &rc.Conns[r.Intn(len(rc.Conns))]
 		pos := len(c.Exchanges)
@@ -154,7 +199,10 @@ func Run(ctx *core.Ctx) {
 	ctx.SetRule("rounds of 1-8 concurrent client connections of 1-5 exchanges each against a real proxy with a fresh Prometheus registry " +
 		"(basic auth, deny-domains, upstream proxy for some hosts, MITM for some hosts, traffic tracking on): GET/HEAD/POST/PUT/OPTIONS with bodies, " +
 		"origin statuses, 407/403/400 refusals, upstream refused / reset mid-head / reset mid-body / header timeout, CONNECT tunnels direct and through the " +
-		"upstream proxy (ok, dial failure, rejection incl. 101), requests whose CONNECT the upstream proxy rejects inside the proxy's transport (GET https:// and inside an intercepted session), MITM hand-off with requests inside, 101 upgrade tunnels, a 101 that is no protocol switch (answered 502), client aborts while uploading / " +
+		"upstream proxy (ok, dial failure, rejection incl. 101), CONNECTs that fail AFTER the proxy dialled a connection (X-Martian-Terminate-Tls to a plain-text target / through an http upstream proxy / through SOCKS5 / with the default TLS client, which cannot terminate at all; " +
+		"the CONNECT to an http or https upstream proxy torn by FIN or RST, garbled, cut, never answered (ConnectTimeout), its header function failing, rejected; TLS to an https upstream proxy failing after the TCP connect; SOCKS5 negotiation refused, torn, cut, never answered, not SOCKS at all; " +
+		"a ConnectFunc returning a connection together with an error; TLS to the origin failing below the transport, also inside an intercepted session; a failed MITM handshake) with their control cases (terminate-TLS tunnel with --insecure, tunnels through the https proxy / SOCKS5 / the ConnectFunc), " +
+		"whose peers wait for the proxy's end of every connection, requests whose CONNECT the upstream proxy rejects inside the proxy's transport (GET https:// and inside an intercepted session), MITM hand-off with requests inside, 101 upgrade tunnels, a 101 that is no protocol switch (answered 502), client aborts while uploading / " +
 		"downloading / before reading the response (RST and FIN), EOF and garbage before a request, keep-alive reuse; tunnel ends by close/FIN/RST; " +
 		"plus cases on the exported Listener/Dialer: 1-6 accepted and 0-4 dialled connections with byte transfers, each closed by 1-4 goroutines at once " +
 		"(some twice), refused dials, Accept on a closed listener; " +
@@ -247,6 +295,8 @@ func Run(ctx *core.Ctx) {
 		switch {
 		case i%8 == 3:
 			defect = "f12"
+		case i%4 == 1:
+			defect = "dialfail"
 		case i%50 == 13:
 			defect = "f40"
 		case i%50 == 27:
